@@ -12,7 +12,7 @@
    every configuration without include declarations. *)
 From BT Require Import Base.ListX AttDb.AttDbModel AttDb.AttDbSpec AttDb.AttDbProofs AttDb.AttDbExamples
   NQueue.NQueueModel AttSrv.AttSrvModel AttSrv.AttSrvProofsC04.
-From BT Require AttSrv.AttSrvSpecC02 AttSrv.AttSrvNoFault AttSrv.AttSrvProofsC04Disc.
+From BT Require AttSrv.AttSrvSpecC02 AttSrv.AttSrvNoFault AttSrv.AttSrvProofsC04Disc AttSrv.AttSrvProofsC04Rbt.
 Local Open Scope N_scope.
 
 (* ---- (a) handle_by_index over all indices is the assignment; non-zero, strictly increasing *)
@@ -188,9 +188,18 @@ Definition C04_reported_handles_full : Prop :=
    att-disc's byte-exact response theorems and the C04 handle theorems (AttSrv/AttSrvProofsC04Disc.v):
      Read By Group Type <<Primary Service>>, Find By Type Value <<Primary Service>>, Find Information (the
      latter additionally without the marker uuid 0x0001).
-   NOT PROVED: Read By Type (att-disc's theorem for it constrains the reported handles only, not the
-   declaration values the clause also checks) and requests of other shapes (they are answered with
-   Error Responses, which the clause does not judge; not derived formally here). *)
+   Read By Type (AttSrv/AttSrvProofsC04Rbt.v, a collector invariant that ties every entry to the read access
+   that produced it): every request with opcode 8, for an output size min(out_size, MTU) of at most 513 bytes
+   (C04_reported_handles_partial_read_by_type). Up to 257 the 8 bit size counter of collect_attributes cannot
+   cut the list; up to 513 it drops exactly 256 bytes, and since 257 is prime the cut never leaves a single
+   byte of an entry, so the clause can judge the cut entry on its handle and value prefix.
+   Requests of other shapes (wrong length, starting handle 0, starting handle above the ending handle, a type
+   other than <<Primary Service>> for the two group requests) are answered with Error Responses, which the
+   clause does not judge: derived formally, so that C04_reported_handles_partial below holds for EVERY request.
+   NOT PROVED, and the reason _full stays a Definition: Read By Type at output sizes above 513 (a list that
+   lost 512 bytes may end in a single byte of an entry of 3, 9, 19, 27, 57 or 171 bytes, which the clause
+   rejects: the statement is false there in general), configurations with the marker uuid
+   0x0001 (Find Information faults, cf. C01_marker_uuid_faults) and states without the connection. *)
 Theorem C04_reported_handles_partial_read_by_group_type :
   forall c st cid n st' rs k a0 a1 x0 x1,
     wf c -> no_includes c -> get_conn st cid = Some k ->
@@ -220,6 +229,24 @@ Theorem C04_reported_handles_partial_find_information :
     check_discovery c [4; a0; a1; x0; x1] rs = Ok.
 Proof. exact AttSrvProofsC04Disc.find_information_reports_assigned. Qed.
 Print Assumptions C04_reported_handles_partial_find_information.
+
+Theorem C04_reported_handles_partial_read_by_type :
+  forall c st cid n st' rs k pdu,
+    wf c -> no_includes c -> get_conn st cid = Some k ->
+    Forall (fun x => x < 256) pdu -> rd pdu 0 = Some 8 -> N.min n (negotiated_mtu c k) <= 513 ->
+    att_input c st cid pdu n = Some (st', rs) -> check_discovery c pdu rs = Ok.
+Proof. exact AttSrvProofsC04Rbt.read_by_type_reports_assigned. Qed.
+Print Assumptions C04_reported_handles_partial_read_by_type.
+
+(* every request: any opcode, any length, any handle range, any type *)
+Theorem C04_reported_handles_partial :
+  forall c st cid n st' rs k pdu,
+    wf c -> no_includes c -> AttSrvNoFault.no_marker_uuids c -> get_conn st cid = Some k ->
+    Forall (fun x => x < 256) pdu ->
+    (rd pdu 0 = Some 8 -> N.min n (negotiated_mtu c k) <= 513) ->
+    att_input c st cid pdu n = Some (st', rs) -> check_discovery c pdu rs = Ok.
+Proof. exact AttSrvProofsC04Rbt.any_request_reports_assigned. Qed.
+Print Assumptions C04_reported_handles_partial.
 
 Example C04_reported_handles_model_accepted :
   let c := cfg_fixed_handles in
